@@ -258,9 +258,9 @@ func c06CRunOnce(c c06CCase, seed int64, st *c06CStats) (msg string) {
 			s0 := clk.Add(1)
 			_ = e.VTriggerMaintenance(c06CIdx, task)
 			s1 := clk.Add(1)
-			if task == "vacuum" {
-				maintSpans = append(maintSpans, [2]int64{s0, s1})
-			}
+			// every maintenance call may vacuum: a "refine" trigger first evaluates the vacuum policy (interval elapsed
+			// and deleted ratio above the threshold), see GraphOptimizer.RunCycle
+			maintSpans = append(maintSpans, [2]int64{s0, s1})
 			runtime.Gosched()
 		}
 	}()
@@ -344,7 +344,7 @@ func c06CRunOnce(c c06CCase, seed int64, st *c06CStats) (msg string) {
 			overlapsVacuum := false
 			for _, ms := range maintSpans {
 				if ms[0] < a.Q1 && ms[1] > a.Q0 {
-					st.L["race:search-overlaps-a-vacuum"]++
+					st.L["race:search-overlaps-a-maintenance-run"]++
 					overlapsVacuum = true
 					break
 				}
@@ -359,19 +359,10 @@ func c06CRunOnce(c c06CCase, seed int64, st *c06CStats) (msg string) {
 				sp, known := spans[id]
 				if !known {
 					// Known finding "withscores-empty-id": VSearchWithScores ignores the "not found" answer of the
-					// internal->external id translation. A candidate whose mapping is missing at translation time - removed by a
-					// vacuum that ran between the graph search and the translation, or not yet published by an add / batch
-					// in flight - comes back as the empty id. Only that shape is excluded: the empty id, from VSearchWithScores,
-					// while the call overlaps a vacuum or an add.
-					overlapsAdd := false
-					for _, evs := range events {
-						for _, ev := range evs {
-							if ev.Add && ev.S0 < a.Q1 && ev.S1 > a.Q0 {
-								overlapsAdd = true
-							}
-						}
-					}
-					if id == "" && a.Q.EP == "VSearchWithScores" && (overlapsVacuum || overlapsAdd) && verifkit.Known("withscores-empty-id") {
+					// internal->external id translation. A (deleted) candidate whose mapping a vacuum removes between the graph
+					// search and the translation comes back as the empty id. Only that shape is excluded: the empty id, from
+					// VSearchWithScores, while the call overlaps a maintenance run.
+					if id == "" && a.Q.EP == "VSearchWithScores" && overlapsVacuum && verifkit.Known("withscores-empty-id") {
 						st.Excluded["withscores-empty-id"]++
 						continue
 					}
